@@ -90,7 +90,14 @@ def check(ctx):
                         desp_blocks.append(ib)
             ctx.check(cls == "once-reactor-own-id", "C15.b", "once::inner:despawns-own-entity", body.loc(b),
                       "despawns the entity captured from spawn_empty() of the same once() call", "the once closure despawns %s" % detail)
-        w = lib.path_to_return_avoiding(inner, [lib.call_target(inner, rb)], desp_blocks)
+        # the entity may already be gone: the failure arm of its own lookup is the only excuse
+        gone = []
+        for ib, it, ifr in inner.iter_calls():
+            if ifr and lib.tail(mir.fn_name(ifr), 2) in ("World::get_entity_mut", "World::get_entity") and len(it["args"]) > 1 \
+                    and all(o[0] == "arg" and o[1] == 1 for o in origins(inner, it["args"][1])):
+                for (sb, ok_t, fail_t) in lib.result_arms(inner, ib):
+                    gone.append(fail_t)
+        w = lib.path_to_return_avoiding(inner, [lib.call_target(inner, rb)], set(desp_blocks) | set(gone))
         ctx.check(bool(desp_blocks) and w is None, "C15.b", "once::inner:despawn-after-run-on-every-path", inner.loc(rb),
                   "every path from the run to return despawns the reactor entity", "a path of the once closure returns after the run without despawning its entity",
                   lib.render_path(inner, w) if w else None)
